@@ -11,7 +11,7 @@ EXPLANATION = (
     "controlled by a zero test of the returned count and, on the raw device, advances the buffer by that count, while all "
     "other transfers use read_exact / write_all / io::copy; that the success value of E57Writer::finalize is the result of "
     "the final flush and PagedWriter::flush forwards the device flush; and that the eight Converter methods map Err(e)/None "
-    "to the matching Error variant carrying the source. Also that an inspected Err never leads to a successful return of the inspecting function (no error is answered with Ok). Not decided: byte-identical output under arbitrary chunking "
+    "to the matching Error variant carrying the source. Also that an inspected Err never leads to a successful return of the inspecting function (no error is answered with Ok, and in the iterators with None or a value instead of Some(Err)). Not decided: byte-identical output under arbitrary chunking "
     "schedules and object state after a failed call.")
 
 
